@@ -2,11 +2,17 @@ open Rx_ext
 let rec pos_of_int n = if n = 1 then XH else if n land 1 = 0 then XO (pos_of_int (n lsr 1)) else XI (pos_of_int (n lsr 1))
 let n_of_int n = if n = 0 then N0 else Npos (pos_of_int n)
 let rec nat_of_int n = if n = 0 then O else S (nat_of_int (n-1))
+(* one line per case: code points; output: 16 resolver bits (match_nth 0..15), timestamp-constructor bit, and
+   the model's resolve tag index is derived by the harness from the bits *)
 let () =
   try while true do
     let line = input_line stdin in
     let cps = if line = "" then [] else List.map (fun x -> n_of_int (int_of_string x)) (String.split_on_char ' ' line) in
-    let buf = Buffer.create 8 in
-    for i = 0 to 7 do Buffer.add_char buf (if match_nth (nat_of_int i) cps then '1' else '0') done;
+    let buf = Buffer.create 20 in
+    for i = 0 to 15 do Buffer.add_char buf (if match_nth (nat_of_int i) cps then '1' else '0') done;
+    Buffer.add_char buf ' ';
+    Buffer.add_char buf (if match_ts cps then '1' else '0');
+    Buffer.add_char buf ' ';
+    Buffer.add_string buf (String.concat "" (List.map (fun c -> if is_non_printable c then "1" else "0") cps));
     print_endline (Buffer.contents buf)
   done with End_of_file -> ()
